@@ -16,6 +16,11 @@ from univers.conan.version_range import VersionRange as ConanRange
 from univers.version_constraint import VersionConstraint
 
 MODULES = ["Univers.Props.C06"]
+TIE_THEOREMS = {"Univers.Text.GenRelationThm": ["Univers.Gen.Text.deb_split_eq", "Univers.Gen.Text.deb_build_constraint_eq",
+                                                "Univers.Gen.Text.deb_from_natives_eq", "Univers.Gen.Text.deb_from_native_eq",
+                                                "Univers.Gen.Text.rpm_build_constraint_eq", "Univers.Gen.Text.rpm_from_natives_eq",
+                                                "Univers.Gen.Text.rpm_from_native_eq"],
+                "Univers.Text.GenSplitReqThm": ["Univers.Gen.Text.py_split_req_eq"]}
 THEOREMS = {
     "Univers.Text.NpmThm": ["Univers.Text.Npm." + n for n in (
         "npm_exact", "npm_caret_exact", "npm_tilde_exact", "npm_xrange_exact", "npm_hyphen_exact", "npm_comparators_exact")],
